@@ -88,6 +88,78 @@ Proof. exact fixed_tool_events. Qed.
 Example c19_env_reference_is_removed_too : tool_env (envref_world (lit "sk-AAAA")) = [(lit "HOME", lit "/home/u")].
 Proof. exact envref_world_tool_env. Qed.
 
+(* The authority over TIME.  The configuration is re-read on every request while the process lives on: a process is a
+   sequence of loads (engine start, every per-request resolution of the thread path, every doctor call - each sees the
+   files as they are THEN) and subprocess spawns (bash / shell tool, pipes / pty task).  Every load adds the `{ "env":
+   NAME }` names of what it loaded to a registry that only grows, and a spawn removes the three fixed variables + the
+   registry AS IT IS AT SPAWN TIME.  EVERY subprocess spawned after configuration w was loaded - whatever the process
+   loaded or spawned before (r0, pre) and whatever it loads or spawns later (rest) - gets an environment without the
+   credential variables of w.  (Seeded change C19-4: a key source added to a configuration file while the authority runs.) *)
+Theorem c19_tool_env_follows_the_loaded_configuration :
+  forall (r0 : registry) (pre rest : list aevent) (w : world) (e : env) (k : str),
+    In k (secret_env_names w) ->
+    Forall (fun env => getenv env k = None)
+           (skipn (length (spawn_envs r0 e pre)) (spawn_envs r0 e (pre ++ ALoad w :: rest))).
+Proof. exact tool_env_follows_the_loaded_configuration. Qed.
+Print Assumptions c19_tool_env_follows_the_loaded_configuration.
+
+(* one load, one spawn is the environment of the theorems above *)
+Theorem c19_tool_env_at_single_load : forall w : world, tool_env_at [w] (w_env w) = tool_env w.
+Proof. exact tool_env_at_single. Qed.
+Print Assumptions c19_tool_env_at_single_load.
+
+(* what the code must NOT do: with the merged list built at the first spawn and reused ("spawn-path optimisation",
+   spawn_envs_memo) the statement is false - start without files, spawn, the file naming ACME_LLM_TOKEN appears and is
+   loaded, spawn: the second subprocess still sees the variable *)
+Theorem c19_memoised_credential_list_refuted : ~ memoised_list_follows_configuration.
+Proof. exact memoised_list_refuted. Qed.
+Print Assumptions c19_memoised_credential_list_refuted.
+Example c19_memoised_probe_sees_the_key :
+  spawn_envs_memo [] None memo_env [ALoad memo_world_before; ASpawn; ALoad memo_world_after; ASpawn] = [memo_env; memo_env].
+Proof. exact memo_probe_sees_the_key. Qed.
+Example c19_faithful_probe_does_not :
+  spawn_envs [] memo_env [ALoad memo_world_before; ASpawn; ALoad memo_world_after; ASpawn] = [memo_env; [(lit "HOME", lit "/home/u")]].
+Proof. exact faithful_probe_does_not. Qed.
+
+(* Noninterference for whole HISTORIES of one authority process (loads and runs in any order; a thread-path run loads
+   first, a session-path run does not; tools = ALL functions of the call and of the environment rip hands them at that
+   time): two histories that differ only in secret values - inline keys, header values, and the values of variables
+   that are removed whenever a subprocess is spawned (ops_agree) - persist the same frames in every run. *)
+Theorem c19_process_noninterference :
+  forall (fuel : nat) (v : body -> list str) (p : N -> str -> body -> presp) (t : env -> tcall -> list str * str)
+         (o1 o2 : list aop),
+    ops_agree [] o1 o2 -> process_runs fuel v p t [] o1 = process_runs fuel v p t [] o2.
+Proof. exact process_noninterference. Qed.
+Print Assumptions c19_process_noninterference.
+(* non-vacuity: the C19-4 sequence.  Before the file names ACME_LLM_TOKEN the variable is an ordinary one (the first
+   run's `printenv` shows it); once the configuration naming it is loaded, the subprocess of the next run does not get it,
+   and the histories from that load on agree for any two keys. *)
+Example c19_history_second_run_hides_the_key :
+  map (fun p => tool_events (fst p))
+      (process_runs 10 (ws_validate leak_script) (ws_prov leak_script) printenv_acme [] (hist_ops (lit "sk-AAAA")))
+  = [[[lit "sk-AAAA"]]; [[]]].
+Proof. exact hist_second_run_hides_the_key. Qed.
+Example c19_history_agrees_from_the_load_on :
+  ops_agree [] [OLoad (hist_after (lit "sk-AAAA")); ORun true (hist_after (lit "sk-AAAA")) (lit "probe") []]
+               [OLoad (hist_after (lit "sk-BBBB")); ORun true (hist_after (lit "sk-BBBB")) (lit "probe") []].
+Proof. exact hist_tail_agrees. Qed.
+
+(* T1 for the spawn path, regenerated from /repo on every run (tools/gen/secret_uses.py, `spawn_path_facts`): the fixed
+   variable list of rip-tools/src/secret_env.rs is the model's; secret_env_names() rebuilds its answer from the
+   registry on EVERY call (no static / OnceLock / lazy / thread_local / get_or_init in its body; the file's only static
+   is the registry); register_secret_env_names only extends the set and nothing in the file removes from it;
+   load_effective_config calls it unconditionally (top level of the body, no return / ? before it) with the
+   ApiKeySource::Env names of config.provider; the per-request resolution, SessionEngine::new and the doctor load; and
+   EVERY subprocess spawn site of rip-tools and ripd (Command::new / CommandBuilder::new) runs `for name in
+   secret_env_names() { cmd.env_remove(name) }` unconditionally, before the call's own env and before the spawn. *)
+Theorem c19_code_spawn_path_as_modelled :
+  sf_fixed_names gen_spawn_facts = [E_API_KEY; E_OPENAI; E_OPENROUTER]
+  /\ sf_names_fresh gen_spawn_facts = true /\ sf_registry_grows_only gen_spawn_facts = true
+  /\ sf_load_registers gen_spawn_facts = true /\ sf_loaders_found gen_spawn_facts = true
+  /\ 1 <= sf_spawn_sites gen_spawn_facts /\ sf_spawn_sites gen_spawn_facts = sf_spawn_sites_stripping gen_spawn_facts.
+Proof. exact gen_spawn_path_as_modelled. Qed.
+Print Assumptions c19_code_spawn_path_as_modelled.
+
 (* the special case of tools given as a fixed function of the call *)
 Theorem c19_noninterference : forall (fuel : nat) (sc : script) (thread : bool) (w1 w2 : world)
                                      (prompt : str) (initial : list item),
